@@ -67,6 +67,9 @@ type spec struct {
 	reachOut  []uint32 // reflexive-transitive closure as bit masks over node indices
 	reachIn   []uint32
 	digraph   container.DirectedGraph // built once for the history part (immutable after Build; the cache only reads it)
+	// reachOnly restricts the history alphabet to ReachOf(a, d): used for the family of all labelled 5-node graphs,
+	// where the full alphabet is too wide (the replay accepts any op name, so artefacts stay replayable)
+	reachOnly bool
 }
 
 func newSpec(g graphs.Graph, profile, cont string) *spec {
@@ -312,12 +315,19 @@ func (s *spec) opName(o op) string {
 func (s *spec) alphabet() []op {
 	var ops []op
 	dirs := []graph.Direction{graph.DirectionOutbound, graph.DirectionInbound}
-	for _, k := range []opKind{kReachOf, kReachSlice, kOrReach, kXorReach} {
+	kinds := []opKind{kReachOf, kReachSlice, kOrReach, kXorReach}
+	if s.reachOnly {
+		kinds = []opKind{kReachOf}
+	}
+	for _, k := range kinds {
 		for _, d := range dirs {
 			for a := 0; a < s.g.N; a++ {
 				ops = append(ops, op{kind: k, a: a, dir: d})
 			}
 		}
+	}
+	if s.reachOnly {
+		return ops
 	}
 	for _, d := range dirs {
 		ops = append(ops, op{kind: kCanReach, dir: d})
@@ -503,6 +513,8 @@ type family struct {
 	Graphs   graphs.Options
 	Profiles []string
 	Depth    int
+	// ReachOnly: the history alphabet is ReachOf(a, d) only
+	ReachOnly bool
 }
 
 type bounds struct {
@@ -526,6 +538,9 @@ func tierBounds(t core.Tier) bounds {
 				{Graphs: graphs.Options{MaxNodes: 3, MaxEdges: 6}, Profiles: ab, Depth: 4},
 				{Graphs: graphs.Options{MinNodes: 4, MaxNodes: 4, MaxEdges: 12, IsoReduce: true}, Profiles: ab, Depth: 4},
 				{Graphs: graphs.Options{MinNodes: 5, MaxNodes: 5, MaxEdges: 4, IsoReduce: true}, Profiles: a, Depth: 3},
+				// every labelled loop-free 5-node digraph with <= 5 edges (the depth-first order of componentReachDFS follows the
+				// numeric order of ids, so one representative per isomorphism class does not cover it): reach queries, two deep
+				{Graphs: graphs.Options{MinNodes: 5, MaxNodes: 5, MaxEdges: 5}, Profiles: a, Depth: 2, ReachOnly: true},
 			},
 		}
 	}
@@ -541,6 +556,8 @@ func tierBounds(t core.Tier) bounds {
 			{Graphs: graphs.Options{MinNodes: 4, MaxNodes: 4, MaxEdges: 12, IsoReduce: true}, Profiles: ab, Depth: 5},
 			{Graphs: graphs.Options{MinNodes: 5, MaxNodes: 5, MaxEdges: 7, IsoReduce: true}, Profiles: a, Depth: 3},
 			{Graphs: graphs.Options{MinNodes: 5, MaxNodes: 5, MaxEdges: 5, IsoReduce: true}, Profiles: a, Depth: 4},
+			{Graphs: graphs.Options{MinNodes: 5, MaxNodes: 5, MaxEdges: 6}, Profiles: a, Depth: 2, ReachOnly: true},
+			{Graphs: graphs.Options{MinNodes: 6, MaxNodes: 6, MaxEdges: 6, IsoReduce: true}, Profiles: ab, Depth: 2, ReachOnly: true},
 		},
 	}
 }
@@ -782,8 +799,12 @@ func main() {
 					return false
 				}
 				s := newSpec(g, prof, "csr")
+				s.reachOnly = fam.ReachOnly
 				s.digraph = s.build()
 				for _, c := range capacities(g.N) {
+					if fam.ReachOnly && c > 3 {
+						break // the wide labelled family: capacities 1..3 (the small families cover every capacity)
+					}
 					dispatch(job{s, c, fam.Depth})
 				}
 			}
